@@ -660,7 +660,7 @@ class C31(C.Check):
             n_idx += sum(len(lv["probes"]) for lv in o["levels"])
             k = "+".join(b["kind"] for b in spec["bases"])
             dist[k] = dist.get(k, 0) + 1
-        bad = fasteval.eval_bools(self.prop, "corr", HEADER, checks, jobs=5)
+        bad = fasteval.eval_bools(self.prop, "corr", HEADER, checks, jobs=4)
         hints = []
         for i in bad[:6]:
             res.add_broken("correspondence", "grid.py vs coq/C31/Model.v: %s" % meta[i]["what"], meta[i])
